@@ -9,6 +9,7 @@ import (
 	"sort"
 	"strings"
 
+	"golang.org/x/tools/go/ast/astutil"
 	"golang.org/x/tools/go/packages"
 )
 
@@ -71,7 +72,8 @@ func isLogCall(info *types.Info, call *ast.CallExpr) bool {
 	}
 	if obj, ok := info.Uses[sel.Sel].(*types.Func); ok && obj.Pkg() != nil {
 		switch obj.Pkg().Path() {
-		case "github.com/sirupsen/logrus", "log":
+		case "github.com/sirupsen/logrus", "log", "github.com/prometheus/client_golang/prometheus":
+			// (a metric is read by nothing in the program: a label is as good as a log text)
 			return true
 		}
 	}
@@ -113,7 +115,7 @@ func dropLogOnlyParams(pkgs []*packages.Package, base map[string][]byte) *inline
 				if obj == nil {
 					continue
 				}
-				bsig, ok := baselineSigs[funcObjName(obj)]
+				bsig, ok := baselineSigs[objAliasName(obj)]
 				if !ok {
 					continue
 				}
@@ -140,6 +142,7 @@ func dropLogOnlyParams(pkgs []*packages.Package, base map[string][]byte) *inline
 	if len(cands) == 0 {
 		return res
 	}
+	freshAll := freshFuncDecls(pkgs)
 	// log-only check, as a greatest fixpoint over the candidate positions
 	logOnly := func(lf *lpFunc, idx int) bool {
 		v := lf.vars[idx]
@@ -194,6 +197,13 @@ func dropLogOnlyParams(pkgs []*packages.Package, base map[string][]byte) *inline
 						child = x
 						continue
 					}
+					// ... or a new helper of the package that only computes a value
+					if callee != nil && callee.Pkg() == lf.pkg.Types && freshAll[callee] != nil {
+						if (&inliner{pkg: lf.pkg, fresh: freshAll}).pureFresh(freshAll[callee], 0) {
+							child = x
+							continue
+						}
+					}
 					break climb
 				case *ast.ParenExpr:
 					child = x
@@ -226,7 +236,7 @@ func dropLogOnlyParams(pkgs []*packages.Package, base map[string][]byte) *inline
 	}
 	// choose the extras: removing them must leave the baseline's parameter types, in order
 	for obj, lf := range cands {
-		old, _ := splitParams(baselineSigs[funcObjName(obj)])
+		old, _ := splitParams(baselineSigs[objAliasName(obj)])
 		k := len(lf.vars) - len(old)
 		var pick func(i, j int, chosen []int) []int
 		pick = func(i, j int, chosen []int) []int {
@@ -338,6 +348,8 @@ func dropLogOnlyParams(pkgs []*packages.Package, base map[string][]byte) *inline
 		}
 	}
 	n := 0
+	keptAlive := map[*types.Var]bool{}
+	keepPkg := map[string]map[string]bool{}
 	for _, s := range sites {
 		if bad[s.lf.obj] {
 			continue
@@ -358,6 +370,53 @@ func dropLogOnlyParams(pkgs []*packages.Package, base map[string][]byte) *inline
 				st, en = fset.Position(a.Pos()).Offset, fset.Position(a.End()).Offset
 			}
 			edits[file] = append(edits[file], inlineEdit{st, en, ""})
+			// an imported package that was only named in the argument would be left unused
+			ast.Inspect(a, func(nd ast.Node) bool {
+				sel, ok := nd.(*ast.SelectorExpr)
+				if !ok {
+					return true
+				}
+				if x, isID := sel.X.(*ast.Ident); isID {
+					if _, isPkg := s.p.TypesInfo.Uses[x].(*types.PkgName); isPkg {
+						decl := "var _ = " + x.Name + "." + sel.Sel.Name
+						if _, isType := s.p.TypesInfo.Uses[sel.Sel].(*types.TypeName); isType {
+							decl = "var _ " + x.Name + "." + sel.Sel.Name
+						}
+						if keepPkg[file] == nil {
+							keepPkg[file] = map[string]bool{}
+						}
+						keepPkg[file][decl] = true
+					}
+				}
+				return true
+			})
+			// a local that was only ever handed over would be left unused
+			ast.Inspect(a, func(nd ast.Node) bool {
+				id, ok := nd.(*ast.Ident)
+				if !ok {
+					return true
+				}
+				v, _ := s.p.TypesInfo.Uses[id].(*types.Var)
+				if v == nil || v.IsField() || v.Parent() == nil || v.Parent() == v.Pkg().Scope() || keptAlive[v] {
+					return true
+				}
+				for _, f := range s.p.Syntax {
+					if f.Pos() <= v.Pos() && v.Pos() < f.End() {
+						path, _ := astutil.PathEnclosingInterval(f, v.Pos(), v.Pos())
+						for k := 0; k+1 < len(path); k++ {
+							switch path[k].(type) {
+							case *ast.AssignStmt, *ast.DeclStmt:
+								if _, inBlock := path[k+1].(*ast.BlockStmt); inBlock {
+									at := fset.Position(path[k].End()).Offset
+									edits[file] = append(edits[file], inlineEdit{at, at, "; _ = " + v.Name()})
+									keptAlive[v] = true
+								}
+							}
+						}
+					}
+				}
+				return true
+			})
 		}
 	}
 	var names []string
@@ -427,6 +486,33 @@ func dropLogOnlyParams(pkgs []*packages.Package, base map[string][]byte) *inline
 			e := keep[i]
 			out = append(out[:e.start], append([]byte(e.text), out[e.end:]...)...)
 		}
+		// a dropped argument may have been the file's last use of package context
+		for _, p := range jiva {
+			for _, f := range p.Syntax {
+				if fset.Position(f.Pos()).Filename != file {
+					continue
+				}
+				for _, im := range f.Imports {
+					if im.Path.Value == `"context"` {
+						n := "context"
+						if im.Name != nil {
+							n = im.Name.Name
+						}
+						if n != "_" && n != "." {
+							out = append(out, []byte("\nvar _ = "+n+".Background\n")...)
+						}
+					}
+				}
+			}
+		}
+		var decls []string
+		for d := range keepPkg[file] {
+			decls = append(decls, d)
+		}
+		sort.Strings(decls)
+		for _, d := range decls {
+			out = append(out, []byte("\n"+d+"\n")...)
+		}
 		res.Overlay[file] = out
 	}
 	return res
@@ -449,6 +535,11 @@ func pureLogArg(info *types.Info, e ast.Expr) bool {
 			}
 			if id, isID := x.Fun.(*ast.Ident); isID && (id.Name == "len" || id.Name == "cap") {
 				return true
+			}
+			if sel, isSel := x.Fun.(*ast.SelectorExpr); isSel {
+				if o, _ := info.Uses[sel.Sel].(*types.Func); o != nil && o.Pkg() != nil && o.Pkg().Path() == "context" && (o.Name() == "Background" || o.Name() == "TODO") {
+					return true
+				}
 			}
 			ok = false
 		case *ast.FuncLit:
